@@ -140,3 +140,52 @@ Proof.
   - vm_compute. discriminate.
   - intro Hc. apply (sequential_same O0 d1 ml1 alias_urls) in Hc. revert Hc. vm_compute. discriminate.
 Qed.
+
+(* ------------------------------------------------------------------ the event-level run on the modelled
+   par.Cache (ProxyRefine.v).  (The keys of ProxyRefineInst.v are base-256 codes of the archive
+   names, far too large to evaluate in unary; for this evaluation the three archive names of d0
+   are numbered 0, 1, 2.)  A round-robin scheduler that skips threads that cannot step (blocked
+   in Lock, or returned) produces a schedule; under it every handler returns the fresh-server
+   response, and the Do calls for the zip of v1.0.0 (two requests) ran f once. *)
+From GI Require Import Proxy.ProxyRefine Proxy.ProxyRefineInst.
+From GI Require Import Par.ParCache.
+
+Section EventExample.
+Let names0 : list bytes :=
+  [b "example.com_!foo_v0.0.0-2018-abcdef"; b "example.com_!foo_v1.0.0"; b "example.com_!foo_v1.1.0"].
+Fixpoint idx_of (l : list bytes) (n : bytes) : nat :=
+  match l with
+  | [] => 0
+  | m :: r => if bytes_eqb m n then 0 else S (idx_of r n)
+  end.
+Let ka0 (n : bytes) : nat := 2 * idx_of names0 n.
+Let kz0 (n : bytes) : nat := 2 * idx_of names0 n + 1.
+Let name0 (k : nat) : bytes := nth (Nat.div k 2) names0 [].
+Let Zf0 := zip_of (flat_map (zip_ops d0) (map (handler O0 d0 ml0) urls0)).
+Let astep0 := astep response d0 ka0 kz0 name0 Zf0.
+
+Fixpoint rr_sched (fuel : nat) (next : nat) (st : astate response) : list nat :=
+  match fuel with
+  | 0 => []
+  | S f =>
+      let try := fun t => match astep0 st t with Some st' => Some (t, st') | None => None end in
+      let order := [Nat.modulo next 3; Nat.modulo (next + 1) 3; Nat.modulo (next + 2) 3] in
+      match fold_left (fun acc t => match acc with Some r => Some r | None => try t end) order None with
+      | Some (t, st') => t :: rr_sched f (t + 1) st'
+      | None => []
+      end
+  end.
+
+Definition sched0 : list nat := rr_sched 400 0 (ainit response (map (handler O0 d0 ml0) urls0)).
+
+Example event_level_d0 :
+  match arun response d0 ka0 kz0 name0 Zf0 sched0 (ainit response (map (handler O0 d0 ml0) urls0)) with
+  | Some st =>
+      hs response st = map (fun u => Some (Ret (respond O0 d0 ml0 u))) urls0 /\
+      Nat.leb 60 (List.length sched0) = true /\
+      fbegins (ents (acs response st) (kz0 (b "example.com_!foo_v1.0.0"))) = 1 /\
+      fbegins (ents (acs response st) (ka0 (b "example.com_!foo_v1.0.0"))) = 1
+  | None => False
+  end.
+Proof. vm_compute. repeat split. Qed.
+End EventExample.
